@@ -12,6 +12,10 @@ pub mod ops;
 #[cfg(kani)]
 pub mod h;
 #[cfg(kani)]
+pub mod h2;
+#[cfg(kani)]
+pub mod h3;
+#[cfg(kani)]
 mod cases;
 
 /// Declares one Kani proof harness with the allocator stubs applied.
